@@ -32,7 +32,7 @@ def dec_dump(enc):
     return out
 
 def norm(k, v):
-    return "\n".join(sorted(v.split("\n"))) if k in UNORDERED_KEYS else v
+    return v
 
 class C20(Prop):
     id = "C20"
@@ -41,38 +41,60 @@ class C20(Prop):
     design_ref = "DESIGN.md §3 C20 (docs/cones/C20.md; plan: docs/DESIGN_plan_v0.md §4 C20)"
     level_text = ("Coq theorems about the hand-written assembly code of the nine lossy typed documents (control, copyright, apt Release / "
                   "Source / Package, removal record, buildinfo, DEP-3 header, APT sources list), composed from the derive-macro model (C16), "
-                  "the lossless reader (C01/C03), the lossy reader and printer (C06/C08): for EVERY text the kind's reader accepts (lossless-reader "
-                  "kinds: all strings; lossy-reader kinds: all strings whose paragraph is canonical, which includes every well-formed document) the "
-                  "printed value reads back as the SAME value (hence prints identically again); on every well-formed document the typed fields are the "
-                  "deserialiser's image of what the lossless reader shows, paragraphs being assigned to roles by Package / Source, Format / Files / "
-                  "License; structurally invalid documents (no or several source paragraphs, a paragraph of neither kind, a missing mandatory field, "
-                  "no Format line, no paragraph) are rejected with the error of the first offending paragraph; the readers are total. Proofs are "
-                  "inductions over token lists, paragraph lists and field lists; the struct tables are regenerated from the Rust sources on every "
-                  "run and their side conditions (ok_struct_stable, role keys) closed by vm_compute.")
+                  "the lossless reader (C01/C03), the lossy reader and printer (C06/C08) and C18's models of the workspace's own field codecs. "
+                  "STABILITY (a text that parses to v: print v parses to the SAME v, hence prints identically): proved OUTSIDE EIGHT KNOWN "
+                  "CLASSES and under ONE PREMISE. The full statement without class guards (C20_full) is FALSE of the code and refuted in Coq "
+                  "(C20_full_refuted). Premise ext0_ok: the stability law for the four codecs that are not workspace code - debversion::Version, "
+                  "url::Url (also: its text is a non-empty white-space free token), lossy Relations (built on debversion), chrono::NaiveDate; for the "
+                  "other twelve 'external' codecs of the derive model (keyword enums, License, Signature, Forwarded, AppliedUpstream, DEP-3 Origin, "
+                  "ParsedVcs, environment map, repository-type set, URI list) the law is a theorem about their Coq models (x_stable), inside "
+                  "three guards. Known classes (each a finding with a replay, a narrow recogniser on the failing field and a Coq witness that it is "
+                  "necessary): c20-files-hash-word (copyright Files item starting with '#'), c20-vcs-second-group (Vcs-Git with a second [..] group; "
+                  "the theorem also leaves multi-line Vcs-Git values out), c20-env-hash-line (Environment entry starting with '#' not sorted "
+                  "first), c20-signature-hash-block (Signed-By key block whose first line starts with '#'), c20-dep3-empty-header (no known "
+                  "field), c20-lossy-blank-last-line (apt kinds: a field value ending in LF, i.e. whose last continuation line is blank or a "
+                  "comment; the Coq class Known_lossy_blank_last is exactly that - values with blank or comment continuation lines in the interior "
+                  "are proved stable), c20-lossy-empty-first-line (apt kinds, field-wise clause only: the lossy value is LF + the lossless one), "
+                  "c20-debversion-i32-digit-run (== on apt Source/Package panics inside debversion; outside the model). Two classes of the first "
+                  "delivery are fixed in /repo and gone: c20-env-trailing-newline, c20-hash-order. Scope: lossless-reader kinds - every text the "
+                  "reader accepts; apt kinds - every text the lossy reader accepts in which no field value ends in LF (includes every well-formed "
+                  "document). Also proved: every value the strict lossless reader "
+                  "hands out is canonical (all strings); acceptance = exactly one source paragraph / Format gate, roles by Package, Source, Files, "
+                  "License, every struct field the deserialiser's image of what get shows (equivalence for control and copyright); rejection of "
+                  "the structurally invalid variants; totality. Struct tables are regenerated from the sources; side conditions closed by vm_compute.")
     level_note = ("Model: FromStr / Display / ToString of debian-control/src/lossy/{control,apt,buildinfo,ftpmaster}.rs, debian-copyright/src/lossy.rs, "
-                  "dep3/src/lossy.rs, apt-sources/src/lib.rs on top of the derive model. External codecs (url::Url, chrono::NaiveDate, "
-                  "debversion::Version, lossy Relations, workspace enum/composite field types) enter through one assumed STABILITY law "
-                  "(a parsed value prints to canonical text that parses to the same value), validated by the typed-doc stream.")
+                  "dep3/src/lossy.rs, apt-sources/src/lib.rs (coq/model/TypedDocs.v) over the derive model; coq/model/TypedExt.v plugs in C18's "
+                  "models (EnumTab + generated tables, Codecs.v, Vcs.v) and transcriptions of serialize_env/deserialize_env, serialize_types/"
+                  "deserialize_types, serialize_uris/deserialize_uris; the typed-doc streams run THAT instance (only Version, Url, Relations, "
+                  "NaiveDate come from the per-case table validated by the harness). PREMISE that remains: ext0_ok (see level_text). NOT proved: "
+                  "C20_full (refuted); stability inside the eight known classes (all are genuine violations or, for the two lossy-reader classes "
+                  "and the debversion panic, outside the property's quantifier / the model); the assumption-free general theorems doc_stable_* "
+                  "keep the abstract premise ext_stable for ANY codecs - it is false for C18's ParsedVcs model (C20_ext_stable_vcs_refuted), which "
+                  "is why the _x theorems with guards are the ones to read.")
     rule = ("typed-doc: per kind, documents generated from the struct field tables (optional fields present/absent, values per codec incl. "
-            "multi-line values, an empty first line, Unicode, pool values of every external codec incl. non-canonical spellings; several "
-            "paragraphs in any order, duplicates, foreign fields, comments, odd colon spacing / indentation / blank lines, missing final "
-            "newline); typed-doc-malformed: every mandatory field of every role missing, an invalid value in every fallible field, wrong "
-            "paragraph structure (no / several sources, neither kind, extra paragraphs), bad lines, white-space-only continuation lines, "
-            "'#' words in lists, Format-gate prefixes, CR line ends, wrong-case keys, near-empty texts; typed-doc-small: EVERY arrangement "
-            "of up to 3 (thorough 4) paragraphs over the kind's roles plus a paragraph of neither role, every presence pattern of the first "
-            "5 (thorough 9) optional fields of every struct; non-trivial = accepted with an optional field or several paragraphs, or rejected "
-            "for a structural / field reason")
+            "multi-line values, an empty first line, Unicode; for the workspace codecs arbitrary compositions incl. the known classes on purpose: "
+            "Vcs-Git with 0-3 bracket groups / branches / stray spaces, Environment with '#', duplicate and unsorted keys, Signed-By paths and "
+            "key blocks starting with '#', Origin bare keywords; for Version / Url / Relations / NaiveDate pool values incl. non-canonical spellings "
+            "and a digit run above i32::MAX; several paragraphs in any order, duplicates, foreign and role-confusing fields, comments, odd colon "
+            "spacing / indentation / blank lines, missing final newline); typed-doc-malformed: every mandatory field of every role missing, an "
+            "invalid value in every fallible field, wrong paragraph structure (no / several sources, neither kind, extra paragraphs), bad lines, "
+            "white-space-only continuation lines, '#' words in lists, Format-gate prefixes, CR line ends, wrong-case keys, near-empty texts; "
+            "typed-doc-small: EVERY arrangement of up to 3 (thorough 4) paragraphs over the kind's roles plus a paragraph of neither role, every "
+            "presence pattern of the first 5 (thorough 9) optional fields of every struct; non-trivial = accepted with an optional field or "
+            "several paragraphs, or rejected for a structural / field reason")
     trusted = ["Coq 8.16.1 kernel",
-               "translate/structs.py (field tables of the structs)",
-               "hand transcription of the FromStr / Display impls (coq/model/TypedDocs.v), tied to the code by the typed-doc streams",
-               "the models of C01/C03/C06/C08/C16 this cone composes (Deb822Lex, Deb822Parse, Lossy, Derive)",
-               "external codecs as assumed stable on the values the stream exercises (per-case table validated by the harness)",
+               "translate/structs.py, translate/enums.py (field tables, keyword tables)",
+               "hand transcription of the FromStr / Display impls (coq/model/TypedDocs.v) and of the three codecs without a C18 model "
+               "(coq/model/TypedExt.v), tied to the code by the typed-doc streams",
+               "the models of C01/C03/C06/C08/C16/C18 this cone composes (Deb822Lex, Deb822Parse, Lossy, Derive, EnumTab, Codecs, Vcs)",
+               "debversion::Version, url::Url, lossy Relations, chrono::NaiveDate as premises (per-case table validated by the harness)",
                "extraction (ExtrOcamlBasic only), OCaml runner, Rust harness, Python driver and oracle"]
-    assumptions = ["ext_stable: for each external codec used by a kind, a value obtained by parsing a canonical text prints to canonical text "
-                   "which (as the kind's deb822 reader shows it) parses to the same value (url::Url, chrono::NaiveDate, debversion::Version, "
-                   "lossy Relations, Priority, MultiArch, License, Signature, YesNoForce, Forwarded, AppliedUpstream, ParsedVcs, environment "
-                   "map, repository-type set, URI list, DEP-3 origin); printing is a function of the value (false for HashMap/HashSet fields "
-                   "in the shipped tree: finding c20-hash-order)",
+    assumptions = ["ext0_ok: for debversion::Version, url::Url, lossy Relations, chrono::NaiveDate a value obtained by parsing a canonical text "
+                   "prints to canonical text which (as the kind's deb822 reader shows it) parses to the same value; a Url prints to a non-empty "
+                   "white-space free token. (The other twelve codecs are computed by Coq models and the law is proved for them inside the guards "
+                   "of c20-vcs-second-group, c20-env-hash-line, c20-signature-hash-block.)",
+                   "value equality is Leibniz equality of the model's values (HashMap / HashSet fields are represented by their sorted lines); "
+                   "the panic of debversion's comparison on digit runs above i32::MAX is outside it (c20-debversion-i32-digit-run)",
                    "struct values are well typed (Rust's type checker)", "inputs are valid UTF-8"]
 
     def streams(self, tier, rng):
@@ -245,9 +267,55 @@ class C20(Prop):
         return p not in ("E:syntax", "")
 
     # ------------------------------------------------------------------ known classes
+    # A failure is in a known class only if EVERY difference it consists of is explained by that
+    # class on the failing field itself (so that a co-occurring, unexplained difference stays fresh).
+    @staticmethod
+    def diffs(v, v2):
+        """field-level differences of two dumps: [(role, key, a, b)] (b None = field missing); None if the paragraph structure differs"""
+        if [r for r, _ in v] != [r for r, _ in v2]:
+            return None
+        out = []
+        for (role, a), (_, b) in zip(v, v2):
+            da, db = dict(a), dict(b)
+            for k in dict.fromkeys([k for k, _ in a] + [k for k, _ in b]):
+                if da.get(k) != db.get(k):
+                    out.append((role, k, da.get(k), db.get(k)))
+        return out
+
+    @staticmethod
+    def drop_hash_lines(a):
+        ls = a.split("\n")
+        return "\n".join([ls[0]] + [l for l in ls[1:] if not l.startswith("#")])
+
+    def explain(self, kind, role, k, a, b):
+        """the known class that accounts for field k printing as a but reading back (and printing) as b"""
+        if a is None:
+            return None
+        if kind in LOSSY_KINDS and b is not None and a == b + "\n":
+            return "c20-lossy-blank-last-line"
+        if kind == "copyright" and k in ("Files", "Files-Excluded") and b is not None and b != a and b == self.drop_hash_lines(a):
+            return "c20-files-hash-word"
+        if kind == "control" and k == "Vcs-Git" and gen_typed.pvcs_second_group(a) and b == gen_typed.pvcs_canon(a):
+            return "c20-vcs-second-group"
+        if kind == "buildinfo" and k == "Environment" and b != a and b == self.drop_hash_lines(a):
+            return "c20-env-hash-line"
+        if kind == "repositories" and k == "Signed-By" and a.startswith("\n#") and "\n" in a[1:]:
+            rest = "\n".join(a.split("\n")[2:])
+            if b == gen_typed.ext_canon("Signature", rest)[1]:
+                return "c20-signature-hash-block"
+        return None
+
     def known_class(self, stream, fields, impl, model, why):
         kind = fields[0]
         r = rec_fields(impl)
+        if "PANIC" in impl:
+            # debversion: comparing two versions with a digit run above i32::MAX panics (class of C12); here it is
+            # reached by `==` on apt Source / Package after a successful read
+            if kind in ("aptsource", "aptpackage") and r.get("p") == "OK" and r.get("ly", "ERR") != "ERR":
+                ver = first(dec_items(r["ly"]), "Version")
+                if ver is not None and any(int(d) > 2147483647 for d in re.findall(r"[0-9]+", ver)):
+                    return "c20-debversion-i32-digit-run"
+            return None
         if why.startswith("order:"):
             return "c20-hash-order"
         if r.get("p") != "OK":
@@ -256,19 +324,36 @@ class C20(Prop):
             v = dec_dump(r.get("v", ""))
         except Exception:
             return None
-        vals = [(role, k, x) for role, its in v for k, x in its]
         if why.startswith("stability"):
             if kind == "dep3" and r.get("v") == "P:" and r.get("r") == "E:noparas":
                 return "c20-dep3-empty-header"
-            if kind == "buildinfo" and any(k == "Environment" and "" in x.split("\n") and x != "" for _, k, x in vals):
-                return "c20-env-trailing-newline"
-            if kind == "copyright" and any(k in ("Files", "Files-Excluded") and any(l.startswith("#") for l in x.split("\n")[1:]) for _, k, x in vals):
-                return "c20-files-hash-word"
-            if kind in LOSSY_KINDS and any(x.endswith("\n") for _, _, x in vals):
-                return "c20-lossy-blank-last-line"
+            if r.get("r") != "OK":
+                # the printed text is rejected: only a one-line lossy value ending in LF does that - its
+                # empty line ends the paragraph, so the single-paragraph reader sees two
+                if kind in LOSSY_KINDS and r.get("r") == "E:syntax":
+                    its = v[0][1]
+                    if any(x.endswith("\n") and "\n" not in x[:-1] for _, x in its[:-1]):
+                        return "c20-lossy-blank-last-line"
+                return None
+            ds = self.diffs(v, dec_dump(r.get("v2", "")))
+            if not ds:
+                return None
+            classes = {self.explain(kind, role, k, a, b) for role, k, a, b in ds}
+            if len(classes) == 1 and None not in classes:
+                return classes.pop()
+            return None
         if why.startswith("field-wise (lossless view)") and kind in LOSSY_KINDS and r.get("ly", "ERR") != "ERR":
             ly = dec_items(r["ly"]); ll = dec_view(r.get("ll", "ERR"))
-            if ll and any(a == "\n" + first(ll[0], k) for k, a in ly if first(ll[0], k) is not None):
+            if not ll or len(ll) != 1:
+                return None
+            exp2 = self.expected(kind, unhex(fields[1]), [ll[0]], self.table_of(fields[2]))
+            if exp2 is None or exp2[0] != "OK":
+                return None
+            ds = self.diffs(v, [(role, [(k, x if x is not None else dict(v[0][1]).get(k)) for k, x in its]) for role, its in exp2[1]])
+            if not ds:
+                return None
+            # every field that differs is one whose first line is empty: lossy value = LF + lossless value
+            if all(first(ly, k) is not None and first(ll[0], k) is not None and first(ly, k) == "\n" + first(ll[0], k) for _, k, _, _ in ds):
                 return "c20-lossy-empty-first-line"
         return None
 
